@@ -5,9 +5,10 @@ import Inkayaku.Proofs.SearchSimLoop
 `negamax_sim`: under the explicit hypotheses `Hyp b0 D` (`HashInj`, `HashNonzero`, `QBound`, `D ≤ 3`, clocks), for every
 fuel, the concrete `Search.negamax` at a position reached from the root `b0` in `k ≤ D` legal moves, entered with a state
 satisfying `SOK` (table invariant `TTOK`, fresh repetition history below the root, not stopped, no `searchmoves`), with
-adequate fuel and no flag poll (the node counter it returns is below the poll period), satisfies the fail-soft contract
+adequate fuel and without interruption (`NoIntr`: the node counter it returns is below the poll period, or polls find an
+empty channel and no move time), satisfies the fail-soft contract
 w.r.t. the plain minimax value `mm game (D − k)` of its position, restores the visible position, and keeps `SOK`.
-Phases: no poll ⇒ `enter` only counts and records; the repetition return is not taken (`isRep_enter_false`); the table
+Phases: `enter` only counts and records (`EnterShape`); the repetition return is not taken (`isRep_enter_false`); the table
 probe is sound (`probe_ok` with `ttok_entry`: every hit is an entry of this position at this ply with exactly the
 remaining draft); horizon = `quiescence_sim` or the static value; the move loop = `nLoop_sim`; the store keeps `TTOK`.
 -/
@@ -27,18 +28,19 @@ def nodeBody (fuel : Nat) (turn : Nat) (s3 : St) (ply maxPly : Nat) (alpha0 alph
         ply maxPly beta isPv (pvMoveOf s3 isPv ply) hash ph (maxPly - ply) (acc0 alpha))
 
 theorem negamax_succ_noPoll (fuel : Nat) (s : St) (ply maxPly : Nat) (α β : Int) (isPv : Bool) (hash ph : UInt64)
-    (hnf : pollFlag s = false) (hrep : isRep (enter s hash) ply = false) :
+    (hto : timedOut s = false) (hrep : isRep (enter s hash) ply = false) :
     negamax (fuel + 1) s ply maxPly α β isPv hash ph =
       match probe ((enter s hash).tt.get? hash) (maxPly - ply) α β with
       | (some r, _, _) => (r, enter s hash)
       | (none, alpha, beta) => nodeBody fuel s.board.turn (enter s hash) ply maxPly α alpha beta isPv hash ph := by
-  rw [negamax_succ, timedOut_of_noFlag hnf]
+  rw [negamax_succ, hto]
   simp only [Bool.false_eq_true, if_false, hrep]
   rfl
 
-theorem sok_enter {b0 : Board} {D : Nat} {s : St} (h : SOK b0 D s) (hnf : pollFlag s = false) (hash : UInt64)
+theorem sok_enter {b0 : Board} {D : Nat} {s : St} (h : SOK b0 D s) (hash : UInt64) (hent : EnterShape s hash)
     (hpc : plyClock b0 ≤ plyClock s.board) : SOK b0 D (enter s hash) := by
-  rw [enter_of_noFlag hnf]
+  obtain ⟨o, he⟩ := hent
+  rw [he]
   refine ⟨h.tt, ?_, h.stop, h.sm⟩
   intro j hj
   show (historySet s.history (plyClock s.board) hash.toNat).getD j 0 = 0
@@ -122,8 +124,7 @@ theorem negamax_sim {b0 : Board} {D : Nat} (H : Hyp b0 D) : ∀ fuel, NSim b0 D 
   | succ fuel ih =>
     intro s k α β isPv hash ph hk hreach hinv hfuel hsok hhash hroot hL hαβ hU hN
     have hframe := negamax_rel (frame_stepRel D) (fuel + 1) s k α β isPv hash ph
-    have hlt : s.negamaxNodes < s.pollPeriod := Nat.lt_of_le_of_lt hframe.nn hN
-    have hnf := pollFlag_false_of_lt' hlt
+    obtain ⟨hto, hent⟩ := enter_of_noIntr hN hframe.nn hash
     obtain ⟨_, hply⟩ := Reach.inv H.rootInv hk hreach
     have hD3 := H.hD
     have hnw := H.nowrap
@@ -132,15 +133,16 @@ theorem negamax_sim {b0 : Board} {D : Nat} (H : Hyp b0 D) : ∀ fuel, NSim b0 D 
     have hrep : isRep (enter s hash) k = false := by
       by_cases h0 : k = 0
       · subst h0; exact isRep_zero _
-      · refine isRep_enter_false hsok.hist hnf hash k (by omega) (by omega) ?_
+      · refine isRep_enter_false' hsok.hist hash hent k (by omega) (by omega) ?_
         rw [hhash]
         exact toNat_ne_zero (H.nz k s.board (by omega) hk hreach)
     have hb3 : (enter s hash).board = s.board := enter_board s hash
-    have htt3 : (enter s hash).tt = s.tt := by rw [enter_of_noFlag hnf]
-    have hpp3 : (enter s hash).pollPeriod = s.pollPeriod := by rw [enter_of_noFlag hnf]
-    have hsok3 : SOK b0 D (enter s hash) := sok_enter hsok hnf hash (by omega)
+    have htt3 : (enter s hash).tt = s.tt := by obtain ⟨o, he⟩ := hent; rw [he]
+    have hpp3 : (enter s hash).pollPeriod = s.pollPeriod := by obtain ⟨o, he⟩ := hent; rw [he]
+    have hcalm3 : Calm s → Calm (enter s hash) := by obtain ⟨o, he⟩ := hent; rw [he]; exact fun h => h
+    have hsok3 : SOK b0 D (enter s hash) := sok_enter hsok hash hent (by omega)
     unfold NodePost
-    rw [negamax_succ_noPoll fuel s k D α β isPv hash ph hnf hrep] at hN ⊢
+    rw [negamax_succ_noPoll fuel s k D α β isPv hash ph hto hrep] at hN ⊢
     -- the probe
     have hpo := probe_ok (mm game (D - k) (s.board, [])) ((enter s hash).tt.get? hash) (D - k) α β hαβ (by
       intro e he hd
@@ -149,7 +151,7 @@ theorem negamax_sim {b0 : Board} {D : Nat} (H : Hyp b0 D) : ∀ fuel, NSim b0 D 
       have : e.depth = D - k := by omega
       rw [this] at h4
       exact ⟨h3, h4⟩)
-    generalize hs3 : enter s hash = s3 at hN hpo hb3 htt3 hpp3 hsok3 ⊢
+    generalize hs3 : enter s hash = s3 at hN hpo hb3 htt3 hpp3 hcalm3 hsok3 ⊢
     generalize hp : Search.probe (s3.tt.get? hash) (D - k) α β = pr at hN hpo ⊢
     obtain ⟨o, α', β'⟩ := pr
     cases o with
@@ -202,7 +204,10 @@ theorem negamax_sim {b0 : Board} {D : Nat} (H : Hyp b0 D) : ∀ fuel, NSim b0 D 
           isPv (pvMoveOf s3 isPv k) (D - k) _ hmem s3 (acc0 α') lossScore (by rw [hb3]) hsok3
           (by unfold acc0; exact w3) (by unfold acc0; simp only; omega) (fun _ => Int.le_refl _)
           (by unfold acc0; simp only; intro; omega) (by unfold acc0; simp only; intro; omega)
-          (by rw [hpp3]; exact hN)
+          (by
+            rcases hN with hN | hN
+            · left; rw [hpp3]; exact hN
+            · right; exact hcalm3 hN)
         unfold LoopPost at hloop
         have hperm : ((sortMoves (genPseudo s.board) (pvMoveOf s3 isPv k) (ttMoveOf (s3.tt.get? hash))
             (killerGet s3.killers (D - k))).filter (isMoveLegal s.board)).Perm (genLegal s.board) :=
